@@ -495,7 +495,9 @@ Definition soft_err (e : N) : bool := (e =? e_cred_expired) || (e =? e_cred_rewo
 Definition dec_finish (m : msg) : msg :=
   if negb (m_err m =? e_success) && negb (soft_err (m_err m)) then msg_reset m else m.
 
-(* dec_process_msg up to the reply; returns the reply message, the new replay state and the key
+(* dec_process_msg up to the reply WHEN THE CLOCK DOES NOT ADVANCE between the receipt of the request and its replay
+   step (the atomic special case of dec_process2 below: CredProofs.dec_process_atomic proves
+   dec_process ... now = dec_process2 ... now (u32 now)); returns the reply message, the new replay state and the key
    inserted by this request (for the roll-back when the reply cannot be sent; None when the request added nothing:
    every failure, and a retry that was allowed to replay an existing record) *)
 Definition dec_process (cf : conf) (is_member : N -> N -> bool) (rs : rstate)
@@ -525,6 +527,44 @@ Definition dec_process (cf : conf) (is_member : N -> N -> bool) (rs : rstate)
                                   the record of the earlier decode in place *)
         else (finish (set_err m e_cred_replayed None), rs, None)
       else (m, k :: rs, Some k)
+    end
+  end.
+
+(* dec_process_msg with the TWO clock readings it makes: `now` when the request is received (dec_timestamp: the decode
+   time of the reply and of the time-window check) and `now2` after replay_insert (dec_validate_replay, repair 41b6e44:
+   a request may sit between its time check and its replay step while the credential expires and replay_purge discards
+   the record of an earlier decode; a successful insert then says nothing).  A credential that was not in the cache is
+   accepted only if it has not expired by now2 (now2 <= time0 + ttl, the record's expiry); otherwise the reply is
+   EMUNGE_CRED_EXPIRED (a soft error: the fields stay), the inserted record STAYS (it is purged later) and the request
+   owns nothing (None).  now2 is a time_t, not truncated to 32 bits. *)
+Definition dec_process2 (cf : conf) (is_member : N -> N -> bool) (rs : rstate)
+           (m : msg) (peer_uid peer_gid now now2 : N) : msg * rstate * option rkey :=
+  let finish := dec_finish in
+  if (m_data_len m =? 0)
+  then (finish (set_err m e_snafu (Some (str "No credential specified in decode request"))), rs, None) else
+  let m := m <| m_time0 := 0 |> <| m_time1 := u32 now |>
+             <| m_client_uid := peer_uid |> <| m_client_gid := peer_gid |> in
+  if c_retry_attempts <? m_retry m
+  then (finish (set_err m e_socket (Some (str "Exceeded maximum number of decode attempts"))), rs, None) else
+  match dec_parse cf m with
+  | inl e => (finish e, rs, None)
+  | inr (m, tag) =>
+    if negb (dec_authorized cf is_member m)
+    then (finish (set_err m e_cred_unauthorized (Some (unauth_str m))), rs, None) else
+    let '(tv, ttl') := dec_time cf (m_time0 m) (m_ttl m) (m_time1 m) in
+    let m := m <| m_ttl := ttl' |> in
+    match tv with
+    | TRewound => (finish (set_err m e_cred_rewound None), rs, None)
+    | TExpired => (finish (set_err m e_cred_expired None), rs, None)
+    | TOk =>
+      let k := cred_rkey tag m in
+      if r_mem k rs then
+        if cf_socket_retry cf && (0 <? m_retry m) && (m_retry m <=? c_retry_attempts)
+        then (m, rs, None)
+        else (finish (set_err m e_cred_replayed None), rs, None)
+      else if m_time0 m + m_ttl m <? now2
+           then (finish (set_err m e_cred_expired None), k :: rs, None)   (* expired since receipt: record stays *)
+           else (m, k :: rs, Some k)
     end
   end.
 
